@@ -59,7 +59,7 @@ PARTIAL_NOTE = {
            'the semi-naive version vectors). The rule dependency graph / SCC order, index selection, the per-SCC loop, __changed, head update and join '
            'code are token generation in ascent_macro and are NOT covered: a defect there is invisible to this check.',
     'C04': 'C04 PARTIAL: covered are "each stored tuple is seen exactly once" (insert adds one occurrence, merges neither duplicate nor lose, lookup ranges over '
-           'exactly the stored entries) and the aggregators not()/count(). Stratification, agg codegen and index choice for agg clauses are macro code, NOT covered.',
+           'exactly the stored entries) and the aggregators min/max/sum/count/mean/not (bounded, as in C17; percentile is left to C17). Stratification, agg codegen and index choice for agg clauses are macro code, NOT covered.',
     'C05': 'C05 PARTIAL (serial only): insert_if_not_present succeeds exactly for the first insertion of a key and never overwrites; contains_key is exact; merging full '
            'indices keeps every key. The generated contains_key(total)/contains_key(delta) pre-check and row push, and every concurrent schedule '
            '(CRelFullIndex) are NOT covered.',
@@ -167,10 +167,10 @@ def run(pid, tier):
     if pid == 'C04':
         from . import unit_agg, prop_agg
         try:
-            au = unit_agg.run_unit(tier, only_prefix=('not_', 'count_'))
+            au = unit_agg.run_unit(tier, only_prefix=('not_', 'count_', 'min_max_', 'sum_', 'mean_'))
             out.inconclusive += au['inconclusive']
             prop_agg.report_failures(out, au, 'aggcheck')
-            extra_cov['aggregators_not_count'] = {
+            extra_cov['aggregators_min_max_sum_count_mean_not'] = {
                 'kani': {h: au['kani']['results'].get(h, {}).get('status') for h in au['kani']['harnesses']},
                 'native': {h: {'evaluated': r['evaluated'], 'domain': r['domain']} for h, r in au['native'].items()}}
         except (common.Inconclusive, LostAnchor) as ex:
